@@ -152,3 +152,15 @@ Example ex_relink :
   let s' := relink_group s [] [1; 2; 3; 4]%N in
   (d_names s' 1, d_names s' 2, d_names s' 3, d_names s' 4, d_names s' 9)%N = (Some 10, Some 10, Some 10, Some 13, Some 12)%N.
 Proof. vm_compute. reflexivity. Qed.
+
+(* the other direction (`separate_foreign_links`): a name that shares its inode with names of another source group gets a copy of
+   its own.  No name changes content; the separated name ends on an inode that no other name has; every other name keeps its inode *)
+Theorem C13_separation_keeps_contents : forall U s q, wf U s -> forall p, content_of (separate s q) p = content_of s p.
+Proof. exact separate_contents. Qed.
+Print Assumptions C13_separation_keeps_contents.
+
+Theorem C13_separated_name_is_alone : forall U s q c, wf U s -> content_of s q = Some c ->
+  d_names (separate s q) q = Some (d_next s) /\
+  (forall p, p <> q -> d_names (separate s q) p = d_names s p /\ d_names (separate s q) p <> Some (d_next s)).
+Proof. exact separate_alone. Qed.
+Print Assumptions C13_separated_name_is_alone.
